@@ -426,8 +426,79 @@ def empty_plan(ctx, uberjob):
                 ctx.fail("snapshot:empty-plan-returned", "dry_run on an empty plan returned the caller's own Plan object as the physical plan", {"output": repr(out)})
 
 
+def independent_locks_and_subclasses(ctx, uberjob, MemStore):
+    """(a) while one thread is inside `with plan.scope(...)`, another thread can use a copy of the plan, and run the plan or any
+    other plan with a registry; (b) run / dry_run / copy of a Plan SUBCLASS that keeps book-keeping of its own (an overridden
+    lit / call filling a list) do not touch the caller's object."""
+    import threading
+    plan, reg = uberjob.Plan(), uberjob.Registry()
+    with plan.scope("a"):
+        x = plan.call(lambda: 1)
+    reg.add(x, MemStore("x"))
+    held, release = threading.Event(), threading.Event()
+
+    def holder():
+        with plan.scope("held"):
+            held.set()
+            release.wait(20)
+    th = threading.Thread(target=holder, daemon=True)
+    th.start()
+    held.wait(5)
+    done = {}
+
+    def other():
+        cp = plan.copy()
+        with cp.scope("on-the-copy"):
+            done["copy-scope"] = True
+        done["run-same-plan"] = uberjob.run(plan, registry=reg, output=x, progress=None, max_workers=2)
+        p2, r2 = uberjob.Plan(), uberjob.Registry()
+        with p2.scope("b"):
+            y = p2.call(lambda: 2)
+        r2.add(y, MemStore("y"))
+        done["run-other-plan"] = uberjob.run(p2, registry=r2, output=y, progress=None, max_workers=2)
+    t2 = threading.Thread(target=other, daemon=True)
+    t2.start()
+    t2.join(10)
+    blocked = t2.is_alive()
+    release.set()
+    th.join(5)
+    t2.join(5)
+    ctx.case(("c13-scope-lock-independent",))
+    if blocked or done.get("run-same-plan") != 1 or done.get("run-other-plan") != 2:
+        ctx.fail("scope-lock-shared", "while one thread is inside `with plan.scope(...)`, a copy's scope / a run of the plan / a run of another plan in a second "
+                 "thread %s (completed: %r)" % ("blocked for 10 s" if blocked else "misbehaved", sorted(done)), {"completed": sorted(done)})
+
+    class BookPlan(uberjob.Plan):
+        def __init__(self):
+            super().__init__()
+            self.literals = []
+
+        def lit(self, value):
+            node = super().lit(value)
+            self.literals.append(node)
+            return node
+    bp = BookPlan()
+    a = bp.call(lambda v, w: v + w, 1, 2)
+    n0 = len(bp.literals)
+    snap0 = snap_plan(bp)
+    for api, fn in (("run", lambda: uberjob.run(bp, output=[a, 5], progress=None)), ("dry_run", lambda: uberjob.run(bp, output=[a, 5], dry_run=True, progress=None)),
+                    ("run with registry", lambda: uberjob.run(bp, output=a, registry=uberjob.Registry(), progress=None)),
+                    ("Plan.copy + lit on the copy", lambda: bp.copy().lit(9))):
+        try:
+            fn()
+        except Exception:
+            pass
+        ctx.case(("c13-plan-subclass", api))
+        d = diff(snap0, snap_plan(bp))
+        if len(bp.literals) != n0 or d:
+            ctx.fail("plan-subclass", "%s on a Plan subclass changed the caller's object: its own list of literals grew from %d to %d; graph diff %s"
+                     % (api, n0, len(bp.literals), d or "none"), {"api": api})
+            break
+
+
 def _cases(ctx, uberjob, rng, ins, MemStore, avs_state, first_scope, Node):
     empty_plan(ctx, uberjob)
+    independent_locks_and_subclasses(ctx, uberjob, MemStore)
     from uberjob._registry import RegistryValue
     nplans = ctx.n(60, 900)
     for pi in range(nplans):
